@@ -22,6 +22,7 @@ func init() {
 			"instruction that registers the request in the transaction table; C04.txn - lookup and delete of a response's transaction are one critical section, " +
 			"delete on every path from a hit, a miss returns a non-nil error; C04.own - the access paths of the connection object touched from the reader entry " +
 			"points and from the writer entry points intersect only in lock-guarded or never-reassigned locations, and input/output settings are distinct allocations. " +
+			"Also: the pending-request table is assigned in the constructor only (never replaced as a whole), its key is the transaction id itself, and the transaction lock is released on every path of the function that took it. " +
 			"Not decided: 'none lost, none matched twice' over all request sequences and schedules (no schedule enumeration, no race detector in this family).",
 		Assume: []string{"sync.Mutex provides mutual exclusion and happens-before", "bufio.Writer hands bytes to the transport only from Flush/Write/ReadFrom (io.Copy)"},
 		Run:    runC04,
@@ -194,6 +195,58 @@ func runC04(c *Ctx) {
 
 	// ---- C04.own
 	checkOwn(c)
+
+	// ---- the table is only ever inserted into and deleted from, one key at a time, after construction: replacing the
+	// whole map (a rollback that "clears the pending requests", a reset on error) forgets requests that are in flight
+	{
+		bad := ""
+		for _, fn := range fns {
+			if fn.Parent() != nil {
+				continue
+			}
+			for _, g := range core.WithClosures(fn) {
+				if core.FuncName(g) == "NewProtocol" {
+					continue
+				}
+				core.EachInstr(g, func(in ssa.Instruction) {
+					if st, ok := in.(*ssa.Store); ok && core.FieldVar(st.Addr) == trans {
+						bad = core.FuncName(g) + " at " + P.InstrPos(st)
+					}
+				})
+			}
+		}
+		R.Check(bad == "", "C04.txn", "rtmp|transactions|never-replaced-after-construction", P.Pos(proto.Obj().Pos()),
+			"the pending-request table is assigned in the constructor only; afterwards entries are added and removed one by one",
+			"the pending-request table is replaced as a whole in "+bad+": every request still waiting for its response is forgotten, and its response is then answered with 'no matched request'", nil)
+	}
+	// ---- the key is the transaction id itself (the same obligation as C03.txn: a truncated key lets two pending
+	// requests collide)
+	for _, fn := range fns {
+		if fn.Parent() != nil {
+			continue
+		}
+		isReg := false
+		core.EachInstr(fn, func(in ssa.Instruction) {
+			if mu, ok := in.(*ssa.MapUpdate); ok && strings.HasSuffix(core.TypedPath(mu.Map), "input.transactions") {
+				isReg = true
+			}
+		})
+		if isReg {
+			checkTxnKey(c, "C04.txn", fn)
+			break
+		}
+	}
+	// ---- the transaction lock is released on every path of the function that took it (a forgotten unlock on the
+	// 'no matched request' exit blocks the reader's next lookup and the writer's next request for good)
+	{
+		var all []*ssa.Function
+		for _, fn := range fns {
+			if fn.Parent() == nil {
+				all = append(all, core.WithClosures(fn)...)
+			}
+		}
+		checkLockReleasedRule(c, "C04.lock", "the reader's next response lookup and the writer's next request block for good", all)
+	}
 }
 
 func describeInstr(in ssa.Instruction) string {
